@@ -311,6 +311,11 @@ def special_points(fn):
             P.append((x, y))
     if fn in ("sin", "cos", "sinh", "cosh", "sec", "csc", "sech", "csch"):
         P += [(0.0, 0.0), (1.0, 0.0), (0.0, 1.0), (-2.0, 0.0), (0.0, -2.0)]
+    if fn in ("arg", "log", "log2", "log10", "logabs", "sqrt", "sqrt_sqr", "exp_log", "pow", "pow_real", "logb", "inv", "div", "abs",
+              "asin", "acos", "atan", "asinh", "acosh", "atanh"):
+        # both signed zeros as real part on the imaginary axis and as imaginary part on the positive real axis: neither is a
+        # branch cut, so the sign of the zero must not show in the value (the library itself produces -0.0, e.g. z * i)
+        P += [(-0.0, 2.0), (-0.0, -2.0), (0.0, 2.0), (0.0, -2.0), (-0.0, 0.5), (2.0, -0.0), (2.0, 0.0), (0.5, -0.0)]
     return P
 
 
